@@ -16,6 +16,7 @@ import inspect
 from fractions import Fraction
 
 from ..sx import terms as T
+from ..sx import loader
 from ..sx.sym import ctx
 from ..shims import scipy_shim as SS
 from ..shims.np_shim import SymArray
@@ -69,7 +70,7 @@ def _real_fluid():
     import pandas as pd
     import warnings
     from bluebonnet.flow import FlowProperties
-    pvt = pd.read_csv("/repo/tests/data/pvt_gas.csv").rename(columns={"P": "pressure", "Z-Factor": "z-factor", "Cg": "compressibility",
+    pvt = pd.read_csv(loader.REPO + "/tests/data/pvt_gas.csv").rename(columns={"P": "pressure", "Z-Factor": "z-factor", "Cg": "compressibility",
                                                                       "Viscosity": "viscosity", "Density": "density"})
     with warnings.catch_warnings():
         warnings.simplefilter("ignore")
